@@ -371,6 +371,20 @@ func execNames(in Ev) Ev {
 		}
 	}
 	e["names"] = names
+	// a parser that parsed another expression before (and, every other time, was cleared since) reports the names of THIS one
+	rp := parsersNew()
+	guarded(func() { rp.ParseString("zq + zw * Max(zq2, 1)") })
+	if len(text)%2 == 1 {
+		guarded(func() { rp.Clear() })
+	}
+	var rerr error
+	if oc3, _ := guarded(func() { rerr = rp.ParseString(text) }); oc3 == "ok" && rerr == nil {
+		nr := []any{}
+		for _, n := range rp.VariableNames() {
+			nr = append(nr, []any{n, nameKey(n)})
+		}
+		e["names_reused"] = nr
+	}
 	e["after"] = snapshot()
 	// CreateVariables on a collection of the caller's: it gets variables of its own (setting one leaves the default ones alone)
 	guarded(func() {
@@ -651,6 +665,10 @@ func genC18(g *Gen) {
 		}
 	case "tmpl":
 		mg := &mgen{r: r}
+		// templates without any variable: the empty template, literal text only, a comment only
+		for _, lx := range [][]mlex{{}, {{"text", "just text"}}, {{"text", "x"}}, {{"{{", "{{"}, {"!", "!"}, {"word", "c"}, {"}}", "}}"}}} {
+			g.Run("templates without variables", []Ev{{"op": "tmpl", "lex": lexAny(lx), "vars": []any{}, "wellformed": true, "caseseed": 1, "predef": []any{}}})
+		}
 		n := g.Pick(3000, 50000)
 		for i := 0; i < n; i++ {
 			var ns []*mnode
